@@ -4,6 +4,29 @@ From MV Require Import Base.Field Serde.Codec.
 Import ListNotations.
 Open Scope Z_scope.
 
+Lemma le_val_le_bytes n x : 0 <= x < 256 ^ Z.of_nat n -> le_val (le_bytes n x) = x.
+Proof.
+  revert x. induction n as [|n IH]; intros x Hx; cbn [le_bytes le_val].
+  - cbn in Hx. lia.
+  - rewrite IH.
+    + pose proof (Z.div_mod x 256 ltac:(lia)). lia.
+    + rewrite Nat2Z.inj_succ, Z.pow_succ_r in Hx by lia.
+      split; [apply Z.div_pos; lia | apply Z.div_lt_upper_bound; lia].
+Qed.
+
+Lemma le_bytes_length n x : length (le_bytes n x) = n.
+Proof. revert x; induction n; intros; cbn; auto. Qed.
+
+Lemma le_bytes_le_val bs : Forall (fun b => 0 <= b < 256) bs -> le_bytes (length bs) (le_val bs) = bs.
+Proof.
+  induction bs as [|b r IH]; intros H; [reflexivity|].
+  inversion H as [|? ? Hb Hr]; subst. cbn [length le_bytes le_val].
+  replace (b + 256 * le_val r) with (b + le_val r * 256) by ring.
+  rewrite Z_mod_plus_full, Z.mod_small by lia.
+  rewrite Z_div_plus_full by lia. rewrite Z.div_small by lia. rewrite Z.add_0_l.
+  rewrite IH by exact Hr. reflexivity.
+Qed.
+
 Lemma take_app n (h r : list byte) : length h = n -> take n (h ++ r) = Some (h, r).
 Proof.
   intros <-. unfold take. rewrite app_length.
@@ -35,12 +58,12 @@ Proof.
   apply Z.leb_le in A. apply Z.ltb_lt in B. lia.
 Qed.
 
-Definition is_int (s : schema) : Prop := exists w, int_width s = Some w.
-
-Lemma int_ok_range s x w : int_width s = Some w -> int_ok s x = true -> 0 <= x < 256 ^ Z.of_nat w.
+Lemma int_ok_range s : forall x w, int_width s = Some w -> int_ok s x = true -> 0 <= x < 256 ^ Z.of_nat w.
 Proof.
-  destruct s; cbn; intros Hw H; inversion Hw; subst; apply andb_true_iff in H; destruct H as [A B];
-    apply Z.leb_le in A; apply Z.ltb_lt in B; try (unfold P in B); cbn; lia.
+  induction s as [| | | | |lo hi s IH| | | | | |]; intros x w Hw H; cbn [int_width] in Hw; try discriminate;
+    try (inversion Hw; subst; cbn [int_ok] in H; apply andb_true_iff in H; destruct H as [A B];
+         apply Z.leb_le in A; apply Z.ltb_lt in B; try (unfold P in B); cbn; lia).
+  cbn [int_ok] in H. apply andb_true_iff in H. destruct H as [_ H]. exact (IH x w Hw H).
 Qed.
 
 Lemma dec_int_enc s w x r :
@@ -64,74 +87,209 @@ Proof.
   rewrite <- Hl. rewrite le_bytes_le_val by (apply forallb_is_byte; exact Eb). reflexivity.
 Qed.
 
-(* ---- round trip --------------------------------------------------------------------------------- *)
-Lemma dec_n_enc (e : schema) :
-  (forall v r, wt e v = true -> dec e (enc e v ++ r) = Some (v, r)) ->
-  forall l r, forallb (wt e) l = true ->
-  dec_n (dec e) (length l) (flat_map (enc e) l ++ r) = Some (l, r).
+Lemma list_max_cons a l : list_max (a :: l) = Nat.max a (list_max l).
+Proof. reflexivity. Qed.
+
+Section Props.
+Variable rec : schema.
+Notation wt := (wt rec).
+Notation enc := (enc rec).
+Notation dec := (dec rec).
+Notation need := (need rec).
+
+(* an integer value under an integer schema *)
+Lemma wt_int s x : wt s (VN x) = match int_width s with Some _ => int_ok s x | None => false end.
+Proof. destruct s; reflexivity. Qed.
+
+Lemma enc_int s x : enc s (VN x) = match int_width s with Some w => le_bytes w x | None => [] end.
+Proof. destruct s; reflexivity. Qed.
+
+(* ---- encodings of non-empty schemas are non-empty ---------------------------------------------- *)
+Lemma enc_nonempty s : forall v, nonempty s = true -> wt s v = true -> (1 <= length (enc s v))%nat.
 Proof.
-  intros IH. induction l as [|v l IHl]; intros r Hl; cbn [length dec_n flat_map]; [reflexivity|].
-  cbn [forallb] in Hl. apply andb_true_iff in Hl. destruct Hl as [Hv Hl].
-  rewrite <- app_assoc. rewrite IH by exact Hv. rewrite IHl by exact Hl. reflexivity.
+  induction s as [| | | | |lo hi s IH| |c IHc e IHe|n e IHe|a IHa b IHb|tbl|]; intros v Hne Hwt;
+    try (destruct v; cbn [Codec.wt int_width] in Hwt; try discriminate;
+         cbn [Codec.enc int_width le_bytes length]; lia);
+    try discriminate.
+  - (* SRange *)
+    destruct v as [x| | | | |]; try (cbn [Codec.wt] in Hwt; discriminate).
+    rewrite wt_int in Hwt. rewrite enc_int. cbn [nonempty] in Hne. cbn [int_width] in *.
+    destruct (int_width s) as [w|] eqn:Hw; [|discriminate].
+    rewrite le_bytes_length.
+    destruct s; cbn [int_width] in Hw; try discriminate; inversion Hw; try lia.
+    (* nested range: its width is that of the inner schema, which is positive by induction *)
+    cbn [int_ok] in Hwt. apply andb_true_iff in Hwt. destruct Hwt as [_ Hwt].
+    assert (Hn : nonempty (SRange lo0 hi0 s) = true) by (cbn [nonempty]; rewrite Hw; reflexivity).
+    specialize (IH (VN x) Hn). rewrite wt_int, enc_int in IH. cbn [int_width] in IH. rewrite Hw in IH.
+    rewrite le_bytes_length in IH. apply IH. exact Hwt.
+  - (* SSeq *)
+    destruct v as [| |l| | |]; cbn [Codec.wt] in Hwt; try discriminate.
+    cbn [nonempty] in Hne. cbn [Codec.enc]. destruct (int_width c) as [w|] eqn:Hw; [|discriminate].
+    rewrite app_length, le_bytes_length.
+    assert (1 <= w)%nat; [|lia].
+    clear -Hw. revert w Hw. induction c; intros w Hw; cbn [int_width] in Hw; try discriminate;
+      try (inversion Hw; lia). apply IHc. exact Hw.
+  - (* SArr *)
+    destruct v as [| |l| | |]; cbn [Codec.wt] in Hwt; try discriminate.
+    cbn [nonempty] in Hne. apply andb_true_iff in Hne. destruct Hne as [Hn He].
+    apply andb_true_iff in Hwt. destruct Hwt as [Hl Hf]. apply Nat.eqb_eq in Hl.
+    destruct l as [|x l]; [cbn in Hl; subst; discriminate|].
+    cbn [forallb] in Hf. apply andb_true_iff in Hf. destruct Hf as [Hx _].
+    cbn [Codec.enc flat_map]. rewrite app_length. specialize (IHe x He Hx). lia.
+  - (* SPair *)
+    destruct v as [| | |x y| |]; cbn [Codec.wt] in Hwt; try discriminate.
+    apply andb_true_iff in Hwt. destruct Hwt as [Hx Hy]. cbn [nonempty] in Hne.
+    cbn [Codec.enc]. rewrite app_length. apply orb_true_iff in Hne. destruct Hne as [Hne|Hne].
+    + specialize (IHa x Hne Hx). lia.
+    + specialize (IHb y Hne Hy). lia.
+  - (* STag *)
+    destruct v as [| | | |t x|]; cbn [Codec.wt] in Hwt; try discriminate.
+    cbn [Codec.enc]. destruct (lookup t tbl); [cbn [length]; lia | discriminate].
 Qed.
 
-Theorem roundtrip : forall s v r, wt s v = true -> dec s (enc s v ++ r) = Some (v, r).
+Lemma flat_map_length_ge (e : schema) l :
+  nonempty e = true -> forallb (wt e) l = true -> (length l <= length (flat_map (enc e) l))%nat.
 Proof.
-  induction s as [| | | | |c IHc e IHe|a IHa b IHb]; intros v r Hwt;
-    try (destruct v as [x| |]; cbn [wt] in Hwt; try discriminate;
-         cbn [enc dec int_width]; rewrite dec_int_enc by (try reflexivity; exact Hwt); reflexivity).
-  - destruct v as [|l|]; cbn [wt] in Hwt; try discriminate.
+  intros Hne. induction l as [|x l IH]; intros Hl; cbn [flat_map length]; [lia|].
+  cbn [forallb] in Hl. apply andb_true_iff in Hl. destruct Hl as [Hx Hl].
+  rewrite app_length. pose proof (enc_nonempty e x Hne Hx). specialize (IH Hl). lia.
+Qed.
+
+Lemma clamp_exact e l r :
+  forallb (wt e) l = true ->
+  clamp e (Z.of_nat (length l)) (flat_map (enc e) l ++ r) = length l.
+Proof.
+  intros Hl. unfold clamp. destruct (nonempty e) eqn:Hne; [|apply Nat2Z.id].
+  pose proof (flat_map_length_ge e l Hne Hl). rewrite app_length.
+  rewrite Z.min_l by lia. apply Nat2Z.id.
+Qed.
+
+(* ---- round trip --------------------------------------------------------------------------------- *)
+Lemma dec_n_enc f (e : schema) :
+  (forall v r, wt e v = true -> (need e v <= f)%nat -> dec f e (enc e v ++ r) = Some (v, r)) ->
+  forall l r, forallb (wt e) l = true -> (list_max (map (need e) l) <= f)%nat ->
+  dec_n (dec f e) (length l) (flat_map (enc e) l ++ r) = Some (l, r).
+Proof.
+  intros IH. induction l as [|v l IHl]; intros r Hl Hm; cbn [length dec_n flat_map]; [reflexivity|].
+  cbn [forallb] in Hl. apply andb_true_iff in Hl. destruct Hl as [Hv Hl].
+  cbn [map] in Hm. rewrite list_max_cons in Hm.
+  rewrite <- app_assoc. rewrite IH by (try exact Hv; lia). rewrite IHl by (try exact Hl; lia). reflexivity.
+Qed.
+
+Theorem roundtrip : forall fuel s v r,
+  wt s v = true -> (need s v <= fuel)%nat -> dec fuel s (enc s v ++ r) = Some (v, r).
+Proof.
+  induction fuel as [|f IH]; intros s v r Hwt Hn.
+  { destruct s, v; cbn [Codec.need] in Hn; try lia; destruct (lookup _ _); lia. }
+  destruct s as [| | | | |lo hi s| |c e|n e|a b|tbl|];
+    try (destruct v as [x| | | | |]; try (cbn [Codec.wt] in Hwt; discriminate);
+         rewrite wt_int in Hwt; rewrite enc_int; cbn [Codec.dec];
+         destruct (int_width _) as [w|] eqn:Hw; [|discriminate];
+         rewrite (dec_int_enc _ w x r Hw Hwt); reflexivity).
+  - (* SUnit *) destruct v; cbn [Codec.wt] in Hwt; try discriminate. reflexivity.
+  - (* SSeq *)
+    destruct v as [| |l| | |]; cbn [Codec.wt] in Hwt; try discriminate.
     destruct (int_width c) as [w|] eqn:Hw; [|discriminate].
-    apply andb_true_iff in Hwt. destruct Hwt as [Hn Hl].
-    cbn [enc dec]. rewrite Hw. rewrite <- app_assoc.
-    rewrite (dec_int_enc c w _ _ Hw Hn). rewrite Nat2Z.id.
-    rewrite (dec_n_enc e IHe l r Hl). reflexivity.
-  - destruct v as [| |x y]; cbn [wt] in Hwt; try discriminate.
-    apply andb_true_iff in Hwt. destruct Hwt as [Hx Hy].
-    cbn [enc dec]. rewrite <- app_assoc. rewrite IHa by exact Hx. rewrite IHb by exact Hy. reflexivity.
+    apply andb_true_iff in Hwt. destruct Hwt as [Hc Hl].
+    cbn [Codec.need] in Hn. cbn [Codec.enc Codec.dec]. rewrite Hw, <- app_assoc.
+    rewrite (dec_int_enc c w _ _ Hw Hc). rewrite clamp_exact by exact Hl.
+    rewrite (dec_n_enc f e (fun v r => IH e v r) l r Hl) by lia.
+    rewrite Z.eqb_refl. reflexivity.
+  - (* SArr *)
+    destruct v as [| |l| | |]; cbn [Codec.wt] in Hwt; try discriminate.
+    apply andb_true_iff in Hwt. destruct Hwt as [Hlen Hl]. apply Nat.eqb_eq in Hlen. subst n.
+    cbn [Codec.need] in Hn. cbn [Codec.enc Codec.dec].
+    rewrite (dec_n_enc f e (fun v r => IH e v r) l r Hl) by lia. reflexivity.
+  - (* SPair *)
+    destruct v as [| | |x y| |]; cbn [Codec.wt] in Hwt; try discriminate.
+    apply andb_true_iff in Hwt. destruct Hwt as [Hx Hy]. cbn [Codec.need] in Hn.
+    cbn [Codec.enc Codec.dec]. rewrite <- app_assoc.
+    rewrite IH by (try exact Hx; lia). rewrite IH by (try exact Hy; lia). reflexivity.
+  - (* STag *)
+    destruct v as [| | | |t x|]; cbn [Codec.wt] in Hwt; try discriminate.
+    cbn [Codec.need] in Hn. cbn [Codec.enc].
+    destruct (lookup t tbl) as [s'|] eqn:Hlk; [|discriminate].
+    apply andb_true_iff in Hwt. destruct Hwt as [Ht Hx].
+    cbn [app Codec.dec]. rewrite Ht, Hlk. rewrite IH by (try exact Hx; lia). reflexivity.
+  - (* SVar *)
+    destruct v as [| | | | |x]; cbn [Codec.wt] in Hwt; try discriminate.
+    cbn [Codec.need] in Hn. cbn [Codec.enc Codec.dec]. rewrite IH by (try exact Hwt; lia). reflexivity.
 Qed.
 
 (* ---- what is accepted is a well-typed value in its unique encoding ----------------------------- *)
-Lemma dec_n_inv (e : schema) :
-  (forall bs v r, dec e bs = Some (v, r) -> wt e v = true /\ bs = enc e v ++ r) ->
-  forall n bs vs r, dec_n (dec e) n bs = Some (vs, r) ->
-  length vs = n /\ forallb (wt e) vs = true /\ bs = flat_map (enc e) vs ++ r.
+Lemma dec_n_inv f (e : schema) :
+  (forall bs v r, dec f e bs = Some (v, r) -> wt e v = true /\ bs = enc e v ++ r /\ (need e v <= f)%nat) ->
+  forall n bs vs r, dec_n (dec f e) n bs = Some (vs, r) ->
+  length vs = n /\ forallb (wt e) vs = true /\ bs = flat_map (enc e) vs ++ r /\
+  (list_max (map (need e) vs) <= f)%nat.
 Proof.
   intros IH. induction n as [|n IHn]; intros bs vs r H; cbn [dec_n] in H.
-  - inversion H; subst. repeat split; reflexivity.
-  - destruct (dec e bs) as [[v t]|] eqn:E; [|discriminate].
-    destruct (dec_n (dec e) n t) as [[vs' r']|] eqn:E2; [|discriminate].
-    inversion H; subst. destruct (IH _ _ _ E) as [Hv ->]. destruct (IHn _ _ _ E2) as [Hl [Hw ->]].
-    cbn [length forallb flat_map]. rewrite Hl, Hv, Hw, <- app_assoc. repeat split; reflexivity.
+  - inversion H; subst. cbn. repeat split; lia.
+  - destruct (dec f e bs) as [[v t]|] eqn:E; [|discriminate].
+    destruct (dec_n (dec f e) n t) as [[vs' r']|] eqn:E2; [|discriminate].
+    inversion H; subst. destruct (IH _ _ _ E) as [Hv [-> Hnv]].
+    destruct (IHn _ _ _ E2) as [Hl [Hw [-> Hm]]].
+    cbn [length forallb flat_map map]. rewrite list_max_cons, Hl, Hv, Hw, <- app_assoc.
+    repeat split; try reflexivity. lia.
 Qed.
 
-Theorem accepted_is_canonical : forall s bs v r,
-  dec s bs = Some (v, r) -> wt s v = true /\ bs = enc s v ++ r.
+Theorem accepted_is_canonical : forall fuel s bs v r,
+  dec fuel s bs = Some (v, r) -> wt s v = true /\ bs = enc s v ++ r /\ (need s v <= fuel)%nat.
 Proof.
-  induction s as [| | | | |c IHc e IHe|a IHa b IHb]; intros bs v r H;
-    try (cbn [dec] in H; destruct (dec_int _ bs) as [[x t]|] eqn:E; [|discriminate];
+  induction fuel as [|f IH]; intros s bs v r H; [discriminate|].
+  destruct s as [| | | | |lo hi s| |c e|n e|a b|tbl|];
+    try (cbn [Codec.dec] in H; destruct (dec_int _ bs) as [[x t]|] eqn:E; [|discriminate];
          inversion H; subst; apply dec_int_inv in E; destruct E as [w [Hw [Hok ->]]];
-         cbn in Hw; inversion Hw; subst; cbn [wt enc int_width]; split; [exact Hok | reflexivity]).
-  - cbn [dec] in H. destruct (dec_int c bs) as [[n t]|] eqn:E; [|discriminate].
-    destruct (dec_n (dec e) (Z.to_nat n) t) as [[vs r']|] eqn:E2; [|discriminate].
+         rewrite wt_int, enc_int, Hw; cbn [Codec.need]; repeat split; [exact Hok | lia]).
+  - (* SUnit *) cbn [Codec.dec] in H. inversion H; subst. cbn. repeat split; lia.
+  - (* SSeq *)
+    cbn [Codec.dec] in H. destruct (dec_int c bs) as [[n t]|] eqn:E; [|discriminate].
+    destruct (dec_n (dec f e) (clamp e n t) t) as [[vs r']|] eqn:E2; [|discriminate].
+    destruct (Z.of_nat (length vs) =? n) eqn:En; [|discriminate]. apply Z.eqb_eq in En.
     inversion H; subst. apply dec_int_inv in E. destruct E as [w [Hw [Hok ->]]].
-    destruct (dec_n_inv e IHe _ _ _ _ E2) as [Hl [Hwt ->]].
-    assert (Hn : Z.of_nat (length vs) = n).
-    { rewrite Hl. apply Z2Nat.id. pose proof (int_ok_range c n w Hw Hok). lia. }
-    cbn [wt enc]. rewrite Hw, Hn, Hok, Hwt, <- app_assoc. split; reflexivity.
-  - cbn [dec] in H. destruct (dec a bs) as [[x t]|] eqn:E; [|discriminate].
-    destruct (dec b t) as [[y r']|] eqn:E2; [|discriminate]. inversion H; subst.
-    destruct (IHa _ _ _ E) as [Hx ->]. destruct (IHb _ _ _ E2) as [Hy ->].
-    cbn [wt enc]. rewrite Hx, Hy, <- app_assoc. split; reflexivity.
+    destruct (dec_n_inv f e (fun bs v r => IH e bs v r) _ _ _ _ E2) as [Hl [Hwt [-> Hm]]].
+    cbn [Codec.wt Codec.enc Codec.need]. rewrite Hw, Hok, Hwt, <- app_assoc. repeat split. lia.
+  - (* SArr *)
+    cbn [Codec.dec] in H. destruct (dec_n (dec f e) n bs) as [[vs r']|] eqn:E2; [|discriminate].
+    inversion H; subst.
+    destruct (dec_n_inv f e (fun bs v r => IH e bs v r) _ _ _ _ E2) as [Hl [Hwt [-> Hm]]].
+    cbn [Codec.wt Codec.enc Codec.need]. rewrite Hl, Nat.eqb_refl, Hwt. repeat split. lia.
+  - (* SPair *)
+    cbn [Codec.dec] in H. destruct (dec f a bs) as [[x t]|] eqn:E; [|discriminate].
+    destruct (dec f b t) as [[y r']|] eqn:E2; [|discriminate]. inversion H; subst.
+    destruct (IH _ _ _ _ E) as [Hx [-> Hnx]]. destruct (IH _ _ _ _ E2) as [Hy [-> Hny]].
+    cbn [Codec.wt Codec.enc Codec.need]. rewrite Hx, Hy, <- app_assoc. repeat split. lia.
+  - (* STag *)
+    cbn [Codec.dec] in H. destruct bs as [|t bs]; [discriminate|].
+    destruct (is_byte t) eqn:Ht; [|discriminate].
+    destruct (lookup t tbl) as [s'|] eqn:Hlk; [|discriminate].
+    destruct (dec f s' bs) as [[x r']|] eqn:E; [|discriminate]. inversion H; subst.
+    destruct (IH _ _ _ _ E) as [Hx [-> Hnx]].
+    cbn [Codec.wt Codec.enc Codec.need]. rewrite Hlk, Ht, Hx. repeat split. lia.
+  - (* SVar *)
+    cbn [Codec.dec] in H. destruct (dec f rec bs) as [[x r']|] eqn:E; [|discriminate]. inversion H; subst.
+    destruct (IH _ _ _ _ E) as [Hx [-> Hnx]].
+    cbn [Codec.wt Codec.enc Codec.need]. repeat split; [exact Hx | lia].
 Qed.
 
 (* C19: any accepted value re-serialises to bytes that decode to an equal value, nothing left *)
-Corollary reencode : forall s bs v r, dec s bs = Some (v, r) -> dec s (enc s v) = Some (v, []).
+Corollary reencode : forall fuel s bs v r,
+  dec fuel s bs = Some (v, r) -> dec fuel s (enc s v) = Some (v, []).
 Proof.
-  intros s bs v r H. destruct (accepted_is_canonical s bs v r H) as [Hwt _].
-  rewrite <- (app_nil_r (enc s v)). apply roundtrip. exact Hwt.
+  intros fuel s bs v r H. destruct (accepted_is_canonical fuel s bs v r H) as [Hwt [_ Hn]].
+  rewrite <- (app_nil_r (enc s v)). apply roundtrip; assumption.
 Qed.
 
-(* the decoder is total (it is a function into option) and consumes a prefix *)
-Corollary dec_prefix : forall s bs v r, dec s bs = Some (v, r) -> exists h, bs = h ++ r.
-Proof. intros s bs v r H. destruct (accepted_is_canonical s bs v r H) as [_ ->]. eauto. Qed.
+(* more fuel never changes an answer *)
+Corollary dec_fuel_mono : forall f f' s bs v r,
+  dec f s bs = Some (v, r) -> (f <= f')%nat -> dec f' s bs = Some (v, r).
+Proof.
+  intros f f' s bs v r H Hf. destruct (accepted_is_canonical f s bs v r H) as [Hwt [-> Hn]].
+  apply roundtrip; [exact Hwt | lia].
+Qed.
+
+(* the decoder consumes a prefix *)
+Corollary dec_prefix : forall fuel s bs v r, dec fuel s bs = Some (v, r) -> exists h, bs = h ++ r.
+Proof. intros fuel s bs v r H. destruct (accepted_is_canonical fuel s bs v r H) as [_ [-> _]]. eauto. Qed.
+
+End Props.
